@@ -270,6 +270,35 @@ fn main() {
             }
             println!("kind=wg handles={t} waits={} vtime={}", sh.waits_done.load(SeqCst), ctx.now());
         } else {
+            if envn("MAYV_ZERO", 0) == 1 {
+                // Barrier::new(0) behaves like Barrier::new(1) (as std's does): every arrival is a generation of its own,
+                // its caller the leader, and nobody waits.  Oracle-only (the model has n >= 1); a blocked wait is a hang.
+                ctx.record(false);
+                let b = Arc::new(may::sync::Barrier::new(0));
+                let mut hs2 = vec![];
+                for k in 0..2usize {
+                    let (b2, in_co) = (b.clone(), k == 0);
+                    hs2.push(spawn_actor(ctx, in_co, format!("z{k}"), move || {
+                        for g in 0..3 {
+                            if !b2.wait().is_leader() {
+                                mayv::ctx().fail(format!("Barrier::new(0): arrival {g} of party {k} was released without being the leader of its generation"));
+                            }
+                        }
+                    }));
+                }
+                for h in hs2 {
+                    match h {
+                        H::T(j) => ctx.join(j),
+                        H::C(j) => {
+                            if j.join().is_err() {
+                                ctx.fail("a party coroutine panicked".into());
+                            }
+                        }
+                    }
+                }
+                println!("kind=barrier n=0 vtime={}", ctx.now());
+                return;
+            }
             let mk = |k: u64| (0..k).map(|_| AtomicU64::new(0)).collect::<Vec<_>>();
             let parties = envn("MAYV_PARTIES", n);
             let free = parties != n;
